@@ -637,7 +637,15 @@ func FuzzC17(f *testing.F) {
 				t.Skip()
 			}
 		}
-		if addr == "" || strings.ContainsAny(addr, " \n\r\t") || len(addr) > 60 {
+		// the peer address is what sshd's ssh_remote_ipaddr() prints: a numeric
+		// IPv4/IPv6 address, possibly with a zone id
+		okAddr := addr != "" && len(addr) <= 60
+		for _, r := range addr {
+			if !(r >= '0' && r <= '9' || r >= 'a' && r <= 'z' || r >= 'A' && r <= 'Z' || r == ':' || r == '.' || r == '%' || r == '-' || r == '_') {
+				okAddr = false
+			}
+		}
+		if !okAddr {
 			addr = "9.9.9.9"
 		}
 		h := hostileCase{Form: hostileForms[int(form)%len(hostileForms)], Name: name, Addr: addr, Port: strconv.Itoa(int(port)), PID: "77"}
